@@ -3,6 +3,7 @@ package wire
 import (
 	"fmt"
 	"math"
+	"strconv"
 	"strings"
 )
 
@@ -142,9 +143,16 @@ func keyValue(key *RField, lit string) *Value {
 	if strings.HasPrefix(lit, `"`) {
 		return &Value{Kind: key.Kind, Str: strings.Trim(lit, `"`)}
 	}
-	var n uint64
-	fmt.Sscan(lit, &n)
-	return &Value{Kind: key.Kind, Bits: n}
+	return &Value{Kind: key.Kind, Bits: decimalKey(lit)}
+}
+
+// decimalKey reads an integer match key: DIGITS is a decimal number, leading zeros included (never octal).
+func decimalKey(lit string) uint64 {
+	n, err := strconv.ParseUint(lit, 10, 64)
+	if err != nil {
+		panic("wirespec: match key " + lit + " is not a decimal number below 2^64")
+	}
+	return n
 }
 
 // variants returns the alternative values of field f (index 0 = baseline). depth bounds recursion.
@@ -401,7 +409,11 @@ func (r *RProgram) UnmappedKeys() (matchField *RField, key *RField, vals []*Valu
 		}
 		in := map[string]bool{}
 		for _, row := range f.Table {
-			in[strings.Trim(row.Key, `"`)] = true
+			if row.IsString {
+				in[strings.Trim(row.Key, `"`)] = true
+			} else {
+				in[fmt.Sprint(decimalKey(row.Key))] = true
+			}
 		}
 		if key.Kind == KInt {
 			w := uint(8 * widthOf(key.Type))
@@ -411,8 +423,7 @@ func (r *RProgram) UnmappedKeys() (matchField *RField, key *RField, vals []*Valu
 			}
 			cands := []uint64{0, mask}
 			for _, row := range f.Table {
-				var n uint64
-				fmt.Sscan(row.Key, &n)
+				n := decimalKey(row.Key)
 				cands = append(cands, (n+1)&mask, (n-1)&mask)
 			}
 			seen := map[uint64]bool{}
@@ -433,4 +444,108 @@ func (r *RProgram) UnmappedKeys() (matchField *RField, key *RField, vals []*Valu
 		return f, key, vals
 	}
 	return nil, nil, nil
+}
+
+// Clone returns a deep copy of a value.
+func (v *Value) Clone() *Value {
+	if v == nil {
+		return nil
+	}
+	c := *v
+	c.Names = append([]string(nil), v.Names...)
+	c.List = nil
+	for _, e := range v.List {
+		c.List = append(c.List, e.Clone())
+	}
+	c.Fields = nil
+	for _, f := range v.Fields {
+		c.Fields = append(c.Fields, f.Clone())
+	}
+	return &c
+}
+
+// firstDynStr finds the first dynamic-string leaf below v that is not a list element.
+func firstDynStr(v *Value) *Value {
+	if v == nil || v.IsList {
+		return nil
+	}
+	if v.Kind == KDynStr {
+		return v
+	}
+	for _, f := range v.Fields {
+		if s := firstDynStr(f); s != nil {
+			return s
+		}
+	}
+	return nil
+}
+
+// BoundaryLengthMessages returns, for every length-of field of the root packet that is at most two bytes wide,
+// messages (derived from every given message whose target holds a dynamic string) in which the target's encoding
+// occupies exactly the largest number of bytes the length field can express, and one byte less: the values
+// at which a "does it fit" comparison written with the wrong operator changes its answer.
+func (r *RProgram) BoundaryLengthMessages(base []*Message) []*Message {
+	var out []*Message
+	seen := map[string]bool{}
+	for _, lf := range r.Root.Fields {
+		if lf.Kind != KLenOf || widthOf(lf.Type) > 2 {
+			continue
+		}
+		limit := 1<<(8*uint(widthOf(lf.Type))) - 1
+		ti := -1
+		for i, f := range r.Root.Fields {
+			if f.Name == lf.Target {
+				ti = i
+			}
+		}
+		if ti < 0 {
+			continue
+		}
+		strMax := 1<<(8*uint(widthOf(r.Cfg.StrPrefix))) - 1
+		for _, m := range base {
+			if firstDynStr(m.Val.Fields[ti]) == nil {
+				continue
+			}
+			shape := m.Val.Fields[ti].Packet
+			e := r.Encode(m)
+			size := -1
+			for _, sp := range e.Layout {
+				if sp.Path == r.Root.Name+"."+lf.Target && sp.What == "object" {
+					size = sp.Len
+				}
+			}
+			if e.Err != "" || size < 0 {
+				continue
+			}
+			for _, want := range []int{limit, limit - 1} {
+				key := fmt.Sprintf("%s|%s|%d", lf.Name, shape, want)
+				if seen[key] {
+					continue
+				}
+				c := m.Val.Clone()
+				s := firstDynStr(c.Fields[ti])
+				n := len(s.Str) + want - size
+				if n < 0 || n > strMax {
+					continue
+				}
+				if want >= size {
+					s.Str = s.Str + strings.Repeat("x", want-size)
+				} else {
+					ascii := true
+					for k := 0; k < len(s.Str); k++ {
+						if s.Str[k] >= 0x80 {
+							ascii = false
+						}
+					}
+					if !ascii {
+						continue
+					}
+					s.Str = s.Str[:n]
+				}
+				seen[key] = true
+				out = append(out, &Message{ID: fmt.Sprintf("bl%d.%s.%s", want, lf.Name, shape), Packet: m.Packet, Val: c, Note: fmt.Sprintf("target of %s occupies exactly %d bytes", lf.Name, want)})
+			}
+		}
+	}
+	return out
 }
